@@ -3,9 +3,11 @@
 //
 // A pool of Go types is written as source (fixed catalogue + seeded random composites and near-miss mutants), type-checked
 // TWICE independently (universe 1 and 2). For all pairs the harness records
-//   x11/x12/x21/x22 : xtypes.Identical (through the verif hook) within and across universes
-//   g1/g2           : types.Identical within a universe (the independent oracle)
-//   i11/i12/i21     : xtypes.Implements(type, interface)        gi1 : types.Implements
+//
+//	x11/x12/x21/x22 : xtypes.Identical (through the verif hook) within and across universes
+//	g1/g2           : types.Identical within a universe (the independent oracle)
+//	i11/i12/i21     : xtypes.Implements(type, interface)        gi1 : types.Implements
+//
 // plus every type as a Coq `gtype` term, and the LookupFieldOrMethod results the Implements model takes as input.
 // Output: one JSON object on stdout.
 package main
@@ -19,7 +21,10 @@ import (
 	"os"
 	"strings"
 
+	"go/token"
+
 	"verif/harness/internal/gtypes"
+	"verif/harness/internal/hutil"
 
 	"github.com/quasilyte/go-ruleguard/ruleguard"
 )
@@ -135,6 +140,71 @@ func (TbUser) Exec(t *tb.Template) error { return nil }
 
 type ExecA interface{ Exec(t *ta.Template) error }
 type ExecB interface{ Exec(t *tb.Template) error }
+type CycT interface{ m() interface{ CycT } }
+type CycU interface{ m() interface{ CycU } }
+type CycV interface {
+	m() interface{ CycV }
+	n()
+}
+type Num interface{ ~int | ~float64 }
+type Num2 interface{ ~int | ~string }
+type Cmp interface{ comparable }
+
+func GF[T any](x T) T       { return x }
+func GG[U any](x U) U       { return x }
+func GH[T any](x T) []T     { return nil }
+func GC[T comparable](x T) T { return x }
+func NG(x int) int          { return x }
+
+func locals() {
+	type Loc int
+	type Loc2 int
+	var a Loc
+	var b Loc2
+	_, _ = a, b
+}
+func locals2() {
+	type Loc int
+	var a Loc
+	_ = a
+}
+
+type MutA interface{ a() interface{ MutB } }
+type MutB interface{ a() interface{ MutA } }
+type CycP interface{ m(x interface{ CycP }) }
+
+var (
+	XMutA   interface{ MutA }
+	XMutB   interface{ MutB }
+	XCycP   interface{ CycP }
+	XDiv1   interface{ m() interface{ m() int } }
+	XDiv2   interface {
+		m() interface{ m() interface{ m() int } }
+	}
+	XDiv3 interface {
+		m() interface {
+			m() interface{ m() interface{ m() int } }
+		}
+	}
+	XDivN interface {
+		m() interface{ m() interface{ n() interface{ CycT } } }
+	}
+	XUnr1 interface{ m() interface{ CycT } }
+	XUnr2 interface{ m() interface{ m() interface{ CycT } } }
+	XUnrU interface{ m() interface{ m() interface{ CycU } } }
+	XUnrV interface{ m() interface{ m() interface{ CycV } } }
+	XDivS interface {
+		m() interface{ m() interface{ m() string } }
+	}
+)
+
+var (
+	XCycT interface{ CycT }
+	XCycU interface{ CycU }
+	XCycV interface{ CycV }
+	XCycT2 interface{ m() interface{ CycT } }
+)
+
 type TP1[T any, U comparable] struct {
 	F0 T
 	F1 U
@@ -403,34 +473,194 @@ var fixed = []string{
 }
 
 type out struct {
-	Mode        string     `json:"mode"`
-	Seed        int64      `json:"seed"`
-	N           int        `json:"n"`
-	Exprs       []string   `json:"exprs"`
-	HasTP       []bool     `json:"has_tp"`
-	Terms1      []string   `json:"terms1"`
-	Terms2      []string   `json:"terms2"`
-	X11         []string   `json:"x11"`
-	X12         []string   `json:"x12"`
-	X21         []string   `json:"x21"`
-	X22         []string   `json:"x22"`
-	G1          []string   `json:"g1"`
-	G2          []string   `json:"g2"`
-	Ifaces      []int      `json:"ifaces"`
-	IfTerms1    []string   `json:"ifterms1"`
-	IfTerms2    []string   `json:"ifterms2"`
-	I11         []string   `json:"i11"`
-	I12         []string   `json:"i12"`
-	I21         []string   `json:"i21"`
-	GI1         []string   `json:"gi1"`
-	GI2         []string   `json:"gi2"`
-	MethodIDs   []string   `json:"method_ids"`
-	IsIface     []bool     `json:"is_iface"`
-	Lookups1    [][]string `json:"lookups1"`
-	Lookups2    [][]string `json:"lookups2"`
-	Panics      []string   `json:"panics"`
+	Mode      string     `json:"mode"`
+	Seed      int64      `json:"seed"`
+	N         int        `json:"n"`
+	Exprs     []string   `json:"exprs"`
+	HasTP     []bool     `json:"has_tp"`
+	Terms1    []string   `json:"terms1"`
+	Terms2    []string   `json:"terms2"`
+	X11       []string   `json:"x11"`
+	X12       []string   `json:"x12"`
+	X21       []string   `json:"x21"`
+	X22       []string   `json:"x22"`
+	G1        []string   `json:"g1"`
+	G2        []string   `json:"g2"`
+	Ifaces    []int      `json:"ifaces"`
+	IfTerms1  []string   `json:"ifterms1"`
+	IfTerms2  []string   `json:"ifterms2"`
+	I11       []string   `json:"i11"`
+	I12       []string   `json:"i12"`
+	I21       []string   `json:"i21"`
+	GI1       []string   `json:"gi1"`
+	GI2       []string   `json:"gi2"`
+	MethodIDs []string   `json:"method_ids"`
+	IsIface   []bool     `json:"is_iface"`
+	Lookups1  [][]string `json:"lookups1"`
+	Lookups2  [][]string `json:"lookups2"`
+	Panics    []string   `json:"panics"`
+	// extra pool: types outside the term model, compared with go/types only
+	XNames      []string   `json:"xnames"`
+	XClass      []string   `json:"xclass"`
+	XX11        []string   `json:"xx11"`
+	XX12        []string   `json:"xx12"`
+	XX21        []string   `json:"xx21"`
+	XG1         []string   `json:"xg1"`
 	Unsupported string     `json:"unsupported"`
+	Engine      *engineOut `json:"engine,omitempty"`
 	Error       string     `json:"error,omitempty"`
+}
+
+// ---- engine level: ONE engine over two independent type-checks of the same target package. Whatever the engine keeps
+// between runs (ctx.GetInterface / GetType results are cached by name in the engine state) belongs to the first universe,
+// so the second run only works if every relation goes through xtypes.
+type engineOut struct {
+	LoadErr string     `json:"load_err"`
+	Runs    [][]string `json:"runs"`   // per run: sorted "rule probe" report messages
+	Oracle  [][]string `json:"oracle"` // per run: what go/types says inside that run's own universe
+	Panics  []string   `json:"panics"`
+}
+
+const engRules = "package gorules\n\nimport (\n\t\"github.com/quasilyte/go-ruleguard/dsl\"\n\t\"github.com/quasilyte/go-ruleguard/dsl/types\"\n)\n\n" +
+	"func implWT(ctx *dsl.VarFilterContext) bool {\n\treturn types.Implements(ctx.Type, ctx.GetInterface(`io.WriterTo`))\n}\n\n" +
+	"func identBuf(ctx *dsl.VarFilterContext) bool {\n\treturn types.Identical(ctx.Type, ctx.GetType(`bytes.Buffer`))\n}\n\n" +
+	"func c14engine(m dsl.Matcher) {\n" +
+	"\tm.Match(`probeA($x)`).Where(m[\"x\"].Filter(implWT)).Report(`customImplements $x`)\n" +
+	"\tm.Match(`probeB($x)`).Where(m[\"x\"].Type.Implements(`io.WriterTo`)).Report(`filterImplements $x`)\n" +
+	"\tm.Match(`probeC($x)`).Where(m[\"x\"].Filter(identBuf)).Report(`customIdentical $x`)\n" +
+	"\tm.Match(`probeD($x)`).Where(m[\"x\"].Type.HasMethod(`io.WriterTo.WriteTo`)).Report(`filterHasMethod $x`)\n" +
+	"\tm.Match(`probeE($x, $y)`).Where(m[\"x\"].Type.IdenticalTo(m[\"y\"])).Report(`filterIdenticalTo $x`)\n" +
+	"\tm.Match(`probeF($x)`).Where(m[\"x\"].Type.Is(`*bytes.Buffer`)).Report(`filterIs $x`)\n" +
+	"}\n"
+
+const engTarget = `package target
+
+import (
+	"bytes"
+	"io"
+)
+
+type W struct{}
+
+func (W) WriteTo(w io.Writer) (int64, error) { return 0, nil }
+
+type NotW struct{}
+
+func (NotW) WriteTo(w *bytes.Buffer) (int64, error) { return 0, nil }
+
+type PW struct{}
+
+func (*PW) WriteTo(w io.Writer) (int64, error) { return 0, nil }
+
+func probeA(interface{})    {}
+func probeB(interface{})    {}
+func probeC(interface{})    {}
+func probeD(interface{})    {}
+func probeE(a, b interface{}) {}
+func probeF(interface{})    {}
+
+var (
+	v0 W
+	v1 NotW
+	v2 bytes.Buffer
+	v3 *bytes.Buffer
+	v4 int
+	v5 io.WriterTo
+	v6 PW
+	v7 *PW
+	v8 io.Writer
+)
+
+func use() {
+	probeA(v0); probeA(v1); probeA(v2); probeA(v3); probeA(v4); probeA(v5); probeA(v6); probeA(v7); probeA(v8)
+	probeB(v0); probeB(v1); probeB(v2); probeB(v3); probeB(v4); probeB(v5); probeB(v6); probeB(v7); probeB(v8)
+	probeC(v0); probeC(v1); probeC(v2); probeC(v3); probeC(v4); probeC(v5); probeC(v6); probeC(v7); probeC(v8)
+	probeD(v0); probeD(v1); probeD(v2); probeD(v3); probeD(v4); probeD(v5); probeD(v6); probeD(v7); probeD(v8)
+	probeF(v0); probeF(v1); probeF(v2); probeF(v3); probeF(v4); probeF(v5); probeF(v6); probeF(v7); probeF(v8)
+	probeE(v2, v2); probeE(v3, &v2); probeE(v0, v1); probeE(v5, v8); probeE(v7, &v6); probeE(v4, v4)
+}
+`
+
+func engineSection(tmp string) *engineOut {
+	eo := &engineOut{}
+	fset := token.NewFileSet()
+	eng := ruleguard.NewEngine()
+	func() {
+		defer func() {
+			if p := recover(); p != nil {
+				eo.LoadErr = fmt.Sprintf("PANIC: %v", p)
+			}
+		}()
+		if err := eng.Load(&ruleguard.LoadContext{Fset: fset}, "c14engine.go", strings.NewReader(engRules)); err != nil {
+			eo.LoadErr = err.Error()
+		}
+	}()
+	if eo.LoadErr != "" {
+		return eo
+	}
+	for run := 0; run < 2; run++ {
+		t, err := hutil.CheckTarget(fmt.Sprintf("%s/run%d", tmp, run), "target.go", []byte(engTarget))
+		if err != nil {
+			eo.LoadErr = "target: " + err.Error()
+			return eo
+		}
+		reports, pmsg := hutil.Run(eng, t, 0, "", nil)
+		if pmsg != "" {
+			eo.Panics = append(eo.Panics, fmt.Sprintf("run %d: %s", run, pmsg))
+		}
+		var msgs []string
+		for _, r := range reports {
+			msgs = append(msgs, r.Message)
+		}
+		sortStrings(msgs)
+		eo.Runs = append(eo.Runs, msgs)
+		// oracle inside this run's universe
+		sc := t.Pkg.Scope()
+		var iop, bp *types.Package
+		for _, imp := range t.Pkg.Imports() {
+			if imp.Path() == "io" {
+				iop = imp
+			}
+			if imp.Path() == "bytes" {
+				bp = imp
+			}
+		}
+		wt := iop.Scope().Lookup("WriterTo").Type().Underlying().(*types.Interface)
+		var wtFn *types.Func
+		for i := 0; i < wt.NumMethods(); i++ {
+			wtFn = wt.Method(i)
+		}
+		buf := bp.Scope().Lookup("Buffer").Type()
+		var exp []string
+		vt := func(i int) types.Type { return sc.Lookup(fmt.Sprintf("v%d", i)).Type() }
+		for i := 0; i < 9; i++ {
+			name := fmt.Sprintf("v%d", i)
+			if types.Implements(vt(i), wt) {
+				exp = append(exp, "customImplements "+name, "filterImplements "+name)
+			}
+			if types.Identical(vt(i), buf) {
+				exp = append(exp, "customIdentical "+name)
+			}
+			if obj, _, _ := types.LookupFieldOrMethod(vt(i), true, wtFn.Pkg(), wtFn.Name()); obj != nil {
+				if f, ok := obj.(*types.Func); ok && types.Identical(f.Type(), wtFn.Type()) {
+					exp = append(exp, "filterHasMethod "+name)
+				}
+			}
+			if types.Identical(vt(i), types.NewPointer(buf)) {
+				exp = append(exp, "filterIs "+name)
+			}
+		}
+		pairs := [][2]types.Type{{vt(2), vt(2)}, {vt(3), types.NewPointer(vt(2))}, {vt(0), vt(1)}, {vt(5), vt(8)}, {vt(7), types.NewPointer(vt(6))}, {vt(4), vt(4)}}
+		firsts := []string{"v2", "v3", "v0", "v5", "v7", "v4"}
+		for i, pr := range pairs {
+			if types.Identical(pr[0], pr[1]) {
+				exp = append(exp, "filterIdenticalTo "+firsts[i])
+			}
+		}
+		sortStrings(exp)
+		eo.Oracle = append(eo.Oracle, exp)
+	}
+	return eo
 }
 
 func bit(b bool) byte {
@@ -445,6 +675,7 @@ func main() {
 	nrand := flag.Int("rand", 30, "number of random composite types (each also yields one near-miss mutant)")
 	depth := flag.Int("depth", 3, "max depth of random composites")
 	dump := flag.Bool("dumpsrc", false, "print the generated pool source to stderr")
+	tmp := flag.String("tmp", "", "scratch directory (enables the engine-level two-type-check section)")
 	flag.Parse()
 	o := out{Mode: os.Getenv("GODEBUG"), Seed: *seed}
 	enc := json.NewEncoder(os.Stdout)
@@ -542,6 +773,68 @@ func main() {
 	o.G1 = matrix(t1, t1, "g1", gi)
 	o.G2 = matrix(t2, t2, "g2", gi)
 
+	// ---- extra pool (no terms): cyclic anonymous interfaces, constraint interfaces, generic signatures, local named types
+	extra := func(u *gtypes.Universe) (ts []types.Type, names, class []string) {
+		pk := u.Pkgs["example.com/c14/pool"]
+		sc := pk.Scope()
+		add := func(t types.Type, n, c string) {
+			ts = append(ts, t)
+			names = append(names, n)
+			class = append(class, c)
+		}
+		for _, n := range []string{"XCycT", "XCycU", "XCycV", "XCycT2", "XMutA", "XMutB", "XCycP", "XDiv1", "XDiv2", "XDiv3", "XDivN", "XUnr1", "XUnr2", "XUnrU", "XUnrV", "XDivS"} {
+			add(sc.Lookup(n).Type(), n+": "+sc.Lookup(n).Type().String(), "cyclic-interface")
+		}
+		for _, n := range []string{"CycT", "CycU", "CycV", "MutA", "MutB", "CycP"} {
+			add(sc.Lookup(n).Type().Underlying(), n+".Underlying()", "cyclic-interface")
+		}
+		for _, n := range []string{"Num", "Num2", "Cmp"} {
+			add(sc.Lookup(n).Type().Underlying(), n+".Underlying()", "constraint-interface")
+		}
+		add(types.NewInterfaceType(nil, nil), "interface{}", "constraint-interface")
+		for _, n := range []string{"GF", "GG", "GH", "GC", "NG"} {
+			add(sc.Lookup(n).Type(), "func "+n+": "+sc.Lookup(n).Type().String(), "generic-signature")
+		}
+		// function-local named types, in source order
+		var locs []*types.TypeName
+		for _, obj := range u.Infos["example.com/c14/pool"].Defs {
+			if tn, ok := obj.(*types.TypeName); ok && tn.Parent() != sc && tn.Pkg() == pk {
+				if _, isTP := tn.Type().(*types.TypeParam); !isTP {
+					locs = append(locs, tn)
+				}
+			}
+		}
+		for i := range locs {
+			for j := i + 1; j < len(locs); j++ {
+				if locs[j].Pos() < locs[i].Pos() {
+					locs[i], locs[j] = locs[j], locs[i]
+				}
+			}
+		}
+		for _, tn := range locs {
+			add(tn.Type(), "local "+tn.Name()+"@"+u.Fset.Position(tn.Pos()).String(), "local-named")
+		}
+		add(sc.Lookup("N").Type(), "N", "local-named")
+		return
+	}
+	e1, xn, xc := extra(u1)
+	e2, _, _ := extra(u2)
+	o.XNames, o.XClass = xn, xc
+	xident := func(what string) func(x, y types.Type, i, j int) bool {
+		return func(x, y types.Type, i, j int) (res bool) {
+			defer func() {
+				if p := recover(); p != nil {
+					o.Panics = append(o.Panics, fmt.Sprintf("%s[%d,%d] %s ~ %s: %v", what, i, j, xn[i], xn[j], p))
+				}
+			}()
+			return ruleguard.VerifXtypesIdentical(x, y)
+		}
+	}
+	o.XX11 = matrix(e1, e1, "xx11", xident("xx11"))
+	o.XX12 = matrix(e1, e2, "xx12", xident("xx12"))
+	o.XX21 = matrix(e2, e1, "xx21", xident("xx21"))
+	o.XG1 = matrix(e1, e1, "xg1", gi)
+
 	// ---- implements
 	var if1, if2 []types.Type
 	for i := 0; i < n; i++ {
@@ -617,6 +910,9 @@ func main() {
 	o.Lookups1 = look(t1, reps1)
 	o.Lookups2 = look(t2, reps2)
 	o.Unsupported = ser.Unsupported
+	if *tmp != "" {
+		o.Engine = engineSection(*tmp)
+	}
 	enc.Encode(o)
 }
 
